@@ -759,7 +759,7 @@ def ops_index_point_roundtrip(h):
 
 
 def _mk_transform(with_inverse):
-    @contract("C13", VT + ".Transform", name="transform-then-inverse[scale+translate]" if with_inverse else "transform_points[scale+translate]", timeout=120000, tier="thorough" if with_inverse else "quick")
+    @contract("C13", VT + ".Transform", name="transform-then-inverse[scale+translate]" if with_inverse else "transform_points[scale+translate]", timeout=120000)
     def transform_roundtrip(h):
         _transform_roundtrip(h, with_inverse)
 
@@ -779,7 +779,12 @@ def _transform_roundtrip(h, with_inverse):
         M[k, k] = s[k]
         M[k, 3] = t[k]
     T = h.module(VT).Transform(M)
-    P = T.transform_points(I.astype(float))
+    from pyvc.engine import Ghost
+
+    grid = Ghost(_transform=T)
+    VG = "trimesh.voxel.base.VoxelGrid"
+    # the real VoxelGrid methods on a ghost grid that only has its transform
+    P = h.method(VG + ".indices_to_points")(grid, I)
     h.check("points=M.i", h.all([h.eq(P[0, k], s[k] * I[0, k] + t[k]) for k in range(3)]))
     h.check("unit_volume=det", h.eq(T.unit_volume, s[0] * s[1] * s[2]))
     if not with_inverse:
@@ -793,7 +798,77 @@ def _transform_roundtrip(h, with_inverse):
     h.check("inverse-restores", h.all([h.eq(B[0, k] * s[k], I[0, k] * s[k]) for k in range(3)]), lemma=True)
     h.check("inverse-restores'", h.all([h.eq(B[0, k], I[0, k]) for k in range(3)]), lemma=True)
     h.check("round-to-index", h.exact(np.round(B).astype(int), I))
+    # VoxelGrid.points_to_indices itself: the centre of cell i maps back to i (negative indices
+    # included), and so does every point less than half a cell away from it
+    J = h.method(VG + ".points_to_indices")(grid, P)
+    h.check("VoxelGrid.points_to_indices(indices_to_points(i))=i", h.exact(J, I))
+    d = h.reals("d", 3)
+    h.assume([h.all([d[k] > -0.49, d[k] < 0.49]) for k in range(3)] if h.mode == "sym" else all(abs(x) < 0.49 for x in d))
+    Q = P.copy() if h.mode != "sym" else np.array([[P[0, k] for k in range(3)]])
+    for k in range(3):
+        Q[0, k] = P[0, k] + d[k] * s[k]
+    J2 = h.method(VG + ".points_to_indices")(grid, Q)
+    h.check("points-within-half-a-cell-map-to-the-same-cell", h.exact(J2, I))
 
 
 _mk_transform(False)
 _mk_transform(True)
+
+
+@bounded("C13", name="real-code:voxelgrid-point-queries", note="VoxelGrid.is_filled / points_to_indices / indices_to_points for 4 encodings x 4 transforms: every cell centre from two cells below to two cells above the grid on every axis, exact and jittered by +-0.4 cell, in shuffled order")
+def voxelgrid_queries(tier, seed):
+    import trimesh
+    from trimesh.voxel import encoding as enc
+
+    rng = rnp.random.default_rng(seed + 131)
+    cells = {}
+    cases = 0
+
+    def fail(key, detail=""):
+        c = cells.setdefault(key, {"what": key, "cell": key, "detail": str(detail)[:200], "count": 0})
+        c["count"] += 1
+
+    dense = rng.random((4, 3, 5)) > 0.45
+    dense[0, 0, 0] = True
+    dense[-1, -1, -1] = True
+    encodings = {
+        "dense": lambda: enc.DenseEncoding(dense.copy()),
+        "sparse": lambda: enc.SparseBinaryEncoding(rnp.column_stack(rnp.nonzero(dense)), shape=dense.shape),
+        "rle": lambda: enc.RunLengthEncoding.from_dense(dense.reshape(-1), dtype=bool, encoding_dtype=rnp.uint8).reshape(dense.shape),
+        "brle": lambda: enc.BinaryRunLengthEncoding.from_dense(dense.reshape(-1), encoding_dtype=rnp.uint8).reshape(dense.shape),
+    }
+    import trimesh.transformations as tf
+
+    transforms = {"identity": rnp.eye(4), "scale+translate": tf.scale_and_translate([0.5, 2.0, 1.5], [10.0, -3.0, 0.25]), "negative-origin": tf.scale_and_translate(0.1, [-7.0, -7.0, -7.0]), "mirror": tf.scale_and_translate([-1.0, 1.0, 1.0], [2.0, 0.0, 0.0])}
+    grid_idx = rnp.array(list(itertools.product(range(-2, 6), range(-2, 5), range(-2, 7))))
+    for ename, mk in encodings.items():
+        for tname, M in transforms.items():
+            cases += 1
+            try:
+                v = trimesh.voxel.VoxelGrid(mk(), transform=M.copy())
+                order = rng.permutation(len(grid_idx))
+                idx = grid_idx[order]
+                for jitter in (0.0, 0.4):
+                    off = (rng.random(idx.shape) * 2 - 1) * jitter
+                    pts = trimesh.transformations.transform_points(idx + off, M)
+                    got_idx = v.points_to_indices(pts)
+                    if not rnp.array_equal(got_idx, idx):
+                        bad = idx[(got_idx != idx).any(axis=1)][0]
+                        fail("%s:%s:points_to_indices-wrong-cell" % (ename, tname), "jitter %.1f: cell %s" % (jitter, bad.tolist()))
+                        continue
+                    inside = ((idx >= 0) & (idx < rnp.array(dense.shape))).all(axis=1)
+                    want = rnp.zeros(len(idx), dtype=bool)
+                    want[inside] = dense[tuple(idx[inside].T)]
+                    got = rnp.asarray(v.is_filled(pts)).astype(bool)
+                    if not rnp.array_equal(got, want):
+                        k_ = int(rnp.flatnonzero(got != want)[0])
+                        fail("%s:%s:is_filled-differs-from-the-dense-array" % (ename, tname), "jitter %.1f: cell %s got %s" % (jitter, idx[k_].tolist(), bool(got[k_])))
+                back = v.indices_to_points(idx)
+                if not rnp.allclose(back, trimesh.transformations.transform_points(idx.astype(float), M), atol=1e-9):
+                    fail("%s:%s:indices_to_points-wrong" % (ename, tname))
+            except Exception as ex:  # noqa: BLE001
+                fail("%s:%s:raised %s" % (ename, tname, type(ex).__name__), ex)
+    fails = sorted(cells.values(), key=lambda c: c["cell"])
+    r = common.result(cases, cases, fails, "4 encodings x 4 transforms x %d cells x 2 jitters" % len(grid_idx), exhaustive=True)
+    r["failures"] = fails
+    return r
